@@ -1,6 +1,7 @@
 """Protocol properties on the multi-tenant engine E2: C09, C10, C11, C15."""
 
 import json
+from fractions import Fraction
 import os
 import subprocess
 import sys
@@ -683,11 +684,46 @@ class C15(Base):
             ops.append(["e3", seed, tasks, 0, 0, 0, [0, "any", k, "all"]])
         return ListDriver(ops)
 
+    SUBPROBLEM_SHARE = {"quick": 0.02, "thorough": 0.03}
+
+    def subproblem(self, rng, tier):
+        """A PeriodicDiskRevolve schedule together with its own memory-only
+        sub-problems as separate Revolve objects (one period; the last
+        segment), same RAM units and step costs, interleaved.  The classes of
+        the family are built from the same sequence generators and tables,
+        so a schedule and a piece of it alive at once is the sharpest
+        collision there is.  Disk is dear here (ratio up to 800) so that the
+        period is long (up to 165 steps)."""
+        from .. import oracles as O
+        c = rng.choice((1, 2, 2, 3, 3))
+        uf = rng.choice(("1", "1", "2", "1/2"))
+        ub = rng.choice(("1", uf, "2"))
+        wd = rd = rng.choice(("8", "40", "100", "200", "400"))
+        if rng.random() < 0.3:
+            rd = rng.choice(("8", "40", "100"))
+        costs = {"uf": uf, "ub": ub, "wd": wd, "rd": rd}
+        scale = O.cost_scale(costs)
+        m = O.period_closed_form(c, *(int(Fraction(costs[k]) * scale)
+                                      for k in ("uf", "ub", "wd", "rd")))
+        m = min(m, 200)
+        last = rng.randint(2, m)
+        N = m * rng.randint(1, 2) + last
+        per = ({"cls": "PeriodicDiskRevolve", "N": N, "p": dict(costs, s=c)},
+               1, "every")
+        subs = [({"cls": "Revolve", "N": n, "p": dict(costs, s=c)}, 1,
+                 "every") for n in {last, m} if n >= 2]
+        slots = subs[:1] + [per] + subs[1:]
+        if rng.random() < 0.5:
+            slots.reverse()
+        return Plan(slots, faults={"obs": 0.05}, interleave=True, overrun=1)
+
     def plan(self, rng, tier, idx):
         nmax, rfmax = self.SIZES[tier]
         lo, hi = self.SLOTS[tier]
         if rng.random() < self.CROWD_SHARE[tier]:
             return self.crowd(rng, tier)
+        if rng.random() < self.SUBPROBLEM_SHARE[tier]:
+            return self.subproblem(rng, tier)
         if rng.random() < self.PIN_SHARE[tier]:
             return self.pinned(rng, tier)
         share = float(os.environ.get("VERIF_E3_SHARE") or self.E3_SHARE[tier])
